@@ -1,6 +1,7 @@
 // C09 libFuzzer target: arbitrary text through every assemble entry point under every option/chunk/mode
 // setting.  The first three bytes are decoded structurally, the rest is the NUL-terminated text.
-//   byte0: option combination (mod 12) | bit 4..5: entry point (0 str, 1 counting, 2 file, 3 file counting)
+//   byte0: bits 0..3 option combination (mod 12) | bit 4..5: entry point (0 str, 1 counting, 2 file, 3 file counting)
+//          | bit 6: debug listing on (asm_set_debug) | bit 7: the text is assembled a second time behind the first call
 //   byte1: bit0 internal/external buffer, bits 1..3 external buffer size class, bit 4 chunk fitting on, bits 5..7 start offset class
 //   byte2: chunk size index
 // Oracle inside the target: the call returns EXIT_SUCCESS or EXIT_FAILURE, the offset stays inside the buffer,
@@ -28,7 +29,8 @@ static void die(const char *what, const uint8_t *data, size_t size) {
 
 extern "C" int LLVMFuzzerTestOneInput(const uint8_t *data, size_t size) {
   if (size < 3) return 0;
-  int combo = data[0] % 12, entry = (data[0] >> 4) & 3;
+  int combo = (data[0] & 15) % 12, entry = (data[0] >> 4) & 3; bool debug = data[0] & 64, twice = data[0] & 128;
+  static bool quiet = (freopen("/dev/null", "w", stdout), true); (void)quiet;   // the debug listing goes to stdout
   bool internal = data[1] & 1; int n = SIZES[(data[1] >> 1) & 7]; bool fitting = data[1] & 16; int startcls = (data[1] >> 5) & 7;
   long long chunk = CHUNKS[data[2] & 15];
   std::string text((const char *)data + 3, size - 3);
@@ -41,6 +43,7 @@ extern "C" int LLVMFuzzerTestOneInput(const uint8_t *data, size_t size) {
   if (!a) return 0;
   asm_mov_imm(a, (enum asm_opt)(combo % 3)); asm_sib_index_base_swap(a, (enum asm_opt)((combo / 3) % 2)); asm_sib_no_base(a, (enum asm_opt)((combo / 6) % 2));
   if (fitting) asm_set_chunk_size(a, (size_t)chunk);
+  if (debug) asm_set_debug(a, true);
   int limit = internal ? 6000 : n;
   int start = startcls == 0 ? 0 : startcls == 1 ? limit : startcls == 2 ? limit / 2 : startcls == 3 ? (limit > 20 ? limit - 20 : 0) : startcls == 4 ? (limit > 21 ? limit - 21 : 0) : startcls == 5 ? 1 : startcls == 6 ? (limit > 19 ? limit - 19 : 0) : 7 % (limit + 1);
   if (start > limit) start = limit; /* offsets are documented for 0..n only */
@@ -57,6 +60,11 @@ extern "C" int LLVMFuzzerTestOneInput(const uint8_t *data, size_t size) {
     close(fd);
   }
   if (rc != EXIT_SUCCESS && rc != EXIT_FAILURE) die("return value is neither EXIT_SUCCESS nor EXIT_FAILURE", data, size);
+  if (twice) { // a further call on the same instance, from wherever the first one left the offset
+    int rc2 = (entry & 1) ? asm_assemble_string_counting_chunks(a, w.data(), (int)chunk, &cnt) : asm_assemble_str(a, text.c_str());
+    if (rc2 != EXIT_SUCCESS && rc2 != EXIT_FAILURE) die("return value of the second call is neither EXIT_SUCCESS nor EXIT_FAILURE", data, size);
+    if (rc2 != EXIT_SUCCESS) rc = rc2;
+  }
   int off = asm_get_offset(a);
   if (rc == EXIT_SUCCESS) {
     if (off < start) die("offset moved backwards on success", data, size);
